@@ -2,6 +2,7 @@
 // GENERATED FILE LAYOUT: this text is /verif/contracts/00_prelude.rs (trusted stubs, DESIGN.md 3.1/3.2).
 // Everything in this file is ghost or `external_body`: it is the *assumed* environment of seq_io.
 // =====================================================================================================
+#![feature(allocator_api)]
 #![allow(unused_imports, dead_code, unused_variables, unused_mut, unused_macros, non_snake_case, unused_parens)]
 use vstd::prelude::*;
 
